@@ -126,6 +126,49 @@ Proof.
 Qed.
 
 
+(* a custom parser's program over InputRef's public API: the machine's run is the positional reading; nothing but the
+   cursor and the user state moves, and the user state is the inspector's reading of the prefix before the cursor
+   (save / rewind restore it, peek does not disturb it) *)
+Lemma firstn_all' {A} (l : list A) : firstn (length l) l = l.
+Proof. induction l; cbn; congruence. Qed.
+
+Lemma prog_loop_refines ops : forall start stack sstack acc s b acc' s1,
+  prog_loop toks spn ops start stack acc s = (b, acc', s1) -> inv s ->
+  Forall2 (fun c p => c = (p, length (sec s), ust_at p)) stack sstack ->
+  prog_sem toks spn ops start sstack acc (cur s) = (b, acc', cur s1) /\
+  alt s1 = alt s /\ sec s1 = sec s /\ ust s1 = ust_at (cur s1) /\ memo s1 = memo s.
+Proof.
+  induction ops as [|o ops IH]; intros start stack sstack acc s b acc' s1 H Hi Hst; cbn [prog_loop prog_sem] in *.
+  { injection H as <- <- <-. repeat split; auto. }
+  assert (Hnext : forall t, nth_error toks (cur s) = Some t ->
+            inv (mkSt (S (cur s)) (sec s) (alt s) (on_tok t (ust s)) (memo s))).
+  { intros t Et. unfold Base.inv. cbn. rewrite (ust_at_S _ _ _ Et). now rewrite Hi. }
+  destruct o.
+  - (* CNext *) unfold next in H. destruct (nth_error toks (cur s)) as [t|] eqn:Et.
+    + apply IH with (sstack := sstack) in H; auto.
+    + apply IH with (sstack := sstack) in H; auto.
+  - (* CNextRef *) unfold next in H. destruct (nth_error toks (cur s)) as [t|] eqn:Et.
+    + apply IH with (sstack := sstack) in H; auto.
+    + apply IH with (sstack := sstack) in H; auto.
+  - (* CPeek *) apply IH with (sstack := sstack) in H; auto.
+  - (* CSkip *) unfold next in H. destruct (nth_error toks (cur s)) as [t|] eqn:Et; cbn [snd] in H.
+    + apply IH with (sstack := sstack) in H; auto.
+    + apply IH with (sstack := sstack) in H; auto.
+  - (* CSave *) apply IH with (sstack := cur s :: sstack) in H; auto.
+    constructor; auto. unfold save. now rewrite Hi.
+  - (* CRewind *) destruct stack as [|c stack']; inversion Hst as [|c0 q l l' Hc Hrest]; subst.
+    + apply IH with (sstack := []) in H; auto.
+    + unfold rewind in H. rewrite firstn_all' in H.
+      apply IH with (sstack := l') in H; [exact H | reflexivity | exact Hrest].
+  - (* CExpect *) unfold next in H. destruct (nth_error toks (cur s)) as [u|] eqn:Eu.
+    + destruct (N.eqb t u).
+      * apply IH with (sstack := sstack) in H; auto.
+      * injection H as <- <- <-. cbn. repeat split; auto. now apply Hnext.
+    + injection H as <- <- <-. repeat split; auto.
+  - (* CSpan *) apply IH with (sstack := sstack) in H; auto.
+  - (* CState *) rewrite Hi in H. apply IH with (sstack := sstack) in H; auto.
+Qed.
+
 Lemma join_alt_cur Q s new : cur (join_alt Q K s new) = cur s.
 Proof. destruct new as [[q e]|]; reflexivity. Qed.
 Lemma join_alt_sec Q s new : sec (join_alt Q K s new) = sec s.
@@ -313,7 +356,7 @@ Lemma it_next_refines : forall i m ctx its s r its' s1,
   it_next spn run m i ctx its s = (r, its', s1) -> inv s ->
   npost m s s1 r its' (it_snext toks spn srun i ctx its (cur s) (alt s)).
 Proof.
-  induction i as [a lo hi|a sep lo hi lead trail|j IHj|f j IHj|f j IHj|a|a lo hi ck|a];
+  induction i as [a lo hi|a sep lo hi lead trail|j IHj|f j IHj|f j IHj|a|a lo hi ck|a|i1 IHi1 i2 IHi2];
     intros m ctx its s r its' s1 H Hi; cbn [it_next it_snext] in *.
   - (* IRep *)
     destruct its; try (injection H as <- <- <-; exact I).
@@ -332,7 +375,7 @@ Proof.
     + destruct P as (v' & ems & -> & ?). exists v', ems. auto.
     + destruct P as (ext & c'' & -> & ?). exists ext, (SCount c''). auto.
   - (* IEnum *)
-    destruct its as [|k js| | | |]; try (injection H as <- <- <-; exact I).
+    destruct its as [|k js| | | | |]; try (injection H as <- <- <-; exact I).
     destruct (it_next spn run m j ctx js s) as [[r0 js'] s2] eqn:E.
     pose proof (IHj _ _ _ _ _ _ _ E Hi) as P.
     destruct r0; injection H as <- <- <-; cbn in *; auto.
@@ -354,14 +397,14 @@ Proof.
     + destruct P as (v' & ems & -> & -> & Hsec & Hu). eexists _, ems. rewrite mapv_bindv, Hu. auto.
     + destruct P as (ext & c'' & -> & ?). exists ext, c''. auto.
   - (* IOrNot *)
-    destruct its as [| |fin| | |]; try (injection H as <- <- <-; exact I).
+    destruct its as [| |fin| | | |]; try (injection H as <- <- <-; exact I).
     destruct fin.
     + injection H as <- <- <-. exists []. rewrite app_nil_r. repeat split; auto.
     + destruct (run m a ctx s) as [r1 s2] eqn:E. use HR E. destruct r1; injection H as <- <- <-; try exact I.
       * ok_elim P. exists v', ems. auto.
       * err_elim P. rewrite (rewind_save _ _ _ Hsec). exists []. cbn. rewrite app_nil_r. repeat split; auto.
   - (* IRepCfg *)
-    destruct its as [| | |c clo chi|k|]; try (injection H as <- <- <-; exact I).
+    destruct its as [| | |c clo chi|k| |]; try (injection H as <- <- <-; exact I).
     + destruct (rep_next run m a clo chi ctx c s) as [[r0 c'] s2] eqn:E. injection H as <- <- <-.
       pose proof (rep_next_refines _ _ _ _ _ _ _ _ _ _ E Hi) as P.
       destruct r0; cbn in *; auto.
@@ -373,7 +416,7 @@ Proof.
       destruct r1; injection H as <- <- <-; try exact I.
       err_elim P. exists ext, (SFail k). auto.
   - (* IIntoIter *)
-    destruct its as [| | | | |[l|]]; try (injection H as <- <- <-; exact I).
+    destruct its as [| | | | |[l|]|]; try (injection H as <- <- <-; exact I).
     + destruct l as [|x l]; injection H as <- <- <-.
       * exists []. rewrite app_nil_r. repeat split; auto.
       * exists x, []. rewrite app_nil_r. repeat split; auto.
@@ -382,6 +425,28 @@ Proof.
         -- exists ems. repeat split; auto.
         -- exists x, ems. repeat split; auto.
       * injection H as <- <- <-. err_elim P. exists ext, (SInto None). auto.
+  - (* IThen *)
+    destruct its as [| | | | | |sa [sb|]]; try (injection H as <- <- <-; exact I).
+    + destruct (it_next spn run m i2 ctx sb s) as [[r0 sb'] s2] eqn:E. injection H as <- <- <-.
+      pose proof (IHi2 _ _ _ _ _ _ _ E Hi) as P.
+      destruct r0; cbn in *; auto.
+      * destruct P as (ems & -> & ?). exists ems. auto.
+      * destruct P as (v' & ems & -> & ?). exists v', ems. auto.
+      * destruct P as (ext & c'' & -> & ?). exists ext, (SThen sa (Some c'')). auto.
+    + destruct (it_next spn run m i1 ctx sa s) as [[r0 sa'] s2] eqn:E.
+      pose proof (IHi1 _ _ _ _ _ _ _ E Hi) as P.
+      destruct r0; cbn [npost] in P.
+      * destruct P as (ems & Hs & Hsec & Hu). rewrite Hs.
+        destruct (it_next spn run m i2 ctx (mk_iter i2 ctx) s2) as [[r1 sb'] s3] eqn:E2. injection H as <- <- <-.
+        pose proof (IHi2 _ _ _ _ _ _ _ E2 Hu) as P2.
+        destruct r1; cbn in *; auto.
+        -- destruct P2 as (ems2 & -> & Hsec2 & Hu2). exists (ems ++ ems2). rewrite Hsec2, Hsec, app_assoc. auto.
+        -- destruct P2 as (v' & ems2 & -> & -> & Hsec2 & Hu2). exists v', (ems ++ ems2). rewrite Hsec2, Hsec, app_assoc. auto.
+        -- destruct P2 as (ext & c'' & -> & Hsec2). exists (ems ++ ext), (SThen sa' (Some c'')). rewrite Hsec2, Hsec, app_assoc. auto.
+      * injection H as <- <- <-. destruct P as (v' & ems & -> & ?). exists v', ems. cbn. auto.
+      * injection H as <- <- <-. destruct P as (ext & c'' & -> & ?). exists ext, (SThen c'' None). auto.
+      * injection H as <- <- <-. exact I.
+      * injection H as <- <- <-. exact I.
 Qed.
 
 (* machine items vs specification items *)
@@ -974,7 +1039,7 @@ Proof.
       destruct r0; try trivial_res H'; inv_pair H'.
       - destruct E as (sitems & ems & -> & _ & Hsec & Hu). fin_ok.
       - destruct E as (ext & -> & Hsec). fin_err. }
-    destruct i as [a lo hi| | | | | | |]; try (eapply Hdrive; exact H).
+    destruct i as [a lo hi| | | | | | | |]; try (eapply Hdrive; exact H).
     destruct lo as [|lo]; [|eapply Hdrive; exact H].
     destruct hi as [hi|]; [eapply Hdrive; exact H|].
     eapply (rep_fast_refines _ _ IH s) with (c := 0) (sacc := []) (sacce := []) in H; eauto; [|now rewrite app_nil_r].
@@ -1181,6 +1246,12 @@ Proof.
     destruct r1; try trivial_res H.
     + inv_pair H. ok_elim P. cbn. fin_ok.
     + err_elim P. destruct (alt s2) as [[q e]|]; [|trivial_res H]. inv_pair H. cbn. fin_err.
+  - (* Prog *)
+    destruct (prog_loop toks spn ops (cur s) [] [] s) as [[b acc] s2] eqn:E.
+    destruct (prog_loop_refines _ _ _ _ _ _ _ _ _ E Hinv (Forall2_nil _)) as (Hp & Ha & Hsec & Hu & _). rewrite Hp.
+    destruct b; inv_pair H.
+    + do 3 eexists. split; [rewrite Ha; reflexivity|]. rewrite Hsec, app_nil_r. repeat split; auto.
+    + exists []. cbn. rewrite Ha, Hsec, app_nil_r. split; reflexivity.
   - (* Padded *)
     destruct (skip_while_spec ws (length toks) s Hinv) as (Hc0 & Hs0 & Ha0 & _ & Hi0).
     destruct (go n m g ctx (skip_while toks (length toks) ws s)) as [r1 s2] eqn:E. use IH E.
